@@ -340,14 +340,26 @@ def div128_valid(d, factor, shift):
 
 
 def magic_div_valid(mult, shift, d, nmax):
-    """floor(n*mult / 2^shift) == n // d for all 0 <= n <= nmax  (exact check via the classical
-    error bound: let e = mult*d - 2^shift; need 0 <= e and e*nmax < 2^shift ... strict form)."""
+    """floor(n*mult / 2^shift) == n // d for all 0 <= n <= nmax, exact.
+    With e = mult*d - 2^shift >= 0 and n = q*d + r the result is right iff n*e < (d-r)*2^shift;
+    for each residue r the largest n <= nmax with that residue is the binding case."""
     e = mult * d - (1 << shift)
     if e < 0:
         return False
-    # n*mult/2^shift = n/d + n*e/(d*2^shift); result correct iff frac(n/d) + n*e/(d*2^shift) < 1
-    # worst case n = k*d + (d-1): need (d-1)/d + n*e/(d 2^shift) < 1  <=>  n*e < 2^shift
-    return nmax * e < (1 << shift)
+    if e == 0:
+        return True
+    two = 1 << shift
+    # residues d-1, d-2, ... : stop as soon as the bound is implied for all smaller residues
+    for back in range(1, d + 1):
+        r = d - back
+        if nmax < r:
+            continue
+        n = nmax - ((nmax - r) % d)
+        if n * e >= back * two:
+            return False
+        if nmax * e < back * two:
+            return True
+    return True
 
 
 # ------------------------------------------------------------------ digit tables
@@ -362,3 +374,34 @@ def digit_pair_table(r):
 
 def f32_from_bits(b):
     return struct.unpack("<f", struct.pack("<I", b))[0]
+
+
+# ------------------------------------------------------------------ fast exact logs (integers only)
+def floor_log_ratio(num, den, base):
+    """k with base^k <= num/den < base^(k+1), for positive integers; estimate then correct."""
+    import math
+
+    def le(k):          # base^k <= num/den
+        if k >= 0:
+            return base ** k * den <= num
+        return den <= num * base ** (-k)
+
+    k = int(math.floor((num.bit_length() - den.bit_length()) / math.log2(base)))
+    while not le(k):
+        k -= 1
+    while le(k + 1):
+        k += 1
+    return k
+
+
+def flog_pow2(q, base, num=1, den=1):
+    """floor(log_base(2^q * num/den))"""
+    if q >= 0:
+        return floor_log_ratio((1 << q) * num, den, base)
+    return floor_log_ratio(num, den << (-q), base)
+
+
+def flog2_pow10(q):
+    if q >= 0:
+        return (10 ** q).bit_length() - 1
+    return floor_log_ratio(1, 10 ** (-q), 2)
